@@ -15,6 +15,12 @@ def main() -> int:
     a = ap.parse_args()
     from . import tla
     from .engine import machinery_failure
+    if a.replay:
+        import json
+        try:
+            os.environ["VERIF_REPLAY_SIGNATURE"] = json.load(open(a.replay))["signature"]
+        except Exception as e:  # noqa: BLE001
+            return machinery_failure(a.pid, f"cannot read replay file {a.replay}: {e!r}")
     try:
         mod = _engine_for(a.pid)
         if mod is None:
